@@ -153,3 +153,37 @@ def cmp_parts(t, x):
     if t[3] == x and t[1] in FLIP:
         return FLIP[t[1]], t[2]
     return None
+
+
+def select(t, atom_value):
+    """Leaf of a nested-conditional value under a total assignment of the guard
+    atoms; None if a guard cannot be evaluated."""
+    while t[0] == 'ite':
+        c = eval3(t[1], atom_value)
+        if c is None:
+            return None
+        t = t[2] if c else t[3]
+    return t
+
+
+def guard_atoms(t):
+    """atoms (non-boolean-connective sub-conditions) of the guards of a nested
+    conditional value"""
+    out = []
+
+    def atoms(c):
+        if c[0] == 'un' and c[1] == 'not':
+            atoms(c[2])
+        elif c[0] == 'bool':
+            for x in c[2]:
+                atoms(x)
+        elif c not in out:
+            out.append(c)
+    while t[0] == 'ite':
+        atoms(t[1])
+        # nested conditionals in the true branch
+        for a in guard_atoms(t[2]):
+            if a not in out:
+                out.append(a)
+        t = t[3]
+    return out
